@@ -52,6 +52,14 @@ def run(ctx: Ctx) -> None:
     from .c04 import commit_rules
     top_, _n = find_api_functions(ctx)
     commit_rules(ctx, top_, "C07.R9")
+    # processes that share the internal directory only: no foreign results
+    rep.rule("C07.R12", "as C16.R2 / R3 / R12: a process that shares only the internal directory with another sees none of its paths (path entries are built from the data "
+                        "directory, blobs from the internal one; set_store('local') hands each directory to the parameter of its name; both default stores use the same directories)")
+    n12 = S.independent_views(ctx, v, "C07.R12")
+    rep.floor("C07.R12", n12, 3)
+    from .c16 import decode_set_store_local, default_dirs_agree
+    decode_set_store_local(ctx, v, "C07.R12")
+    default_dirs_agree(ctx, v, "C07.R12")
     f = ctx.prog.funcs.get("dds._api._store")
     if f is not None:
         rep.info("C07.R1", f.qname, "delayed creation of the default store is a check-then-set on a module global inside one process (listed, not judged: the property is about processes)", f.loc())
